@@ -41,7 +41,8 @@ RULE = (
 LETTERS = {"nuc": "ACGT", "prot": "ACDEFGHIKLMNPQRSTVWY"}
 POOLS = {
     "nuc": ["A", "AC", "ACGT", "ACGT"],
-    "prot": ["L", "LK", "AGKL", "ACDEFGHIKLMNPQRSTVWY"],
+    # the stop symbol '*' is a regular symbol of a protein sequence (it is not a letter!)
+    "prot": ["L", "LK", "AGKL", "ACDEFGHIKLMNPQRSTVWY", "LK*", "ACDEFGHIKLMNPQRSTVWY*"],
 }
 # letters that can only be read as protein by the FASTA type guesser
 PROT_ONLY = set("EFILPQ")
